@@ -46,18 +46,19 @@ def key_of(e):
   return None
 
 
-def cond_value(test, facts):
+def cond_value(test, facts, keyf=None):
   """Three-valued evaluation of `test` under `facts` ({key: bool}); None = unknown."""
-  k = key_of(test)
+  keyf = keyf or key_of
+  k = keyf(test)
   if k is not None:
     return facts.get(k)
   if isinstance(test, ast.Constant):
     return bool(test.value)
   if isinstance(test, ast.UnaryOp) and isinstance(test.op, ast.Not):
-    v = cond_value(test.operand, facts)
+    v = cond_value(test.operand, facts, keyf)
     return None if v is None else (not v)
   if isinstance(test, ast.BoolOp):
-    vs = [cond_value(v, facts) for v in test.values]
+    vs = [cond_value(v, facts, keyf) for v in test.values]
     if isinstance(test.op, ast.And):
       if any(v is False for v in vs):
         return False
@@ -68,18 +69,19 @@ def cond_value(test, facts):
   return None
 
 
-def cond_facts(test, truth):
+def cond_facts(test, truth, keyf=None):
   """Facts implied by `test` evaluating to `truth`."""
-  k = key_of(test)
+  keyf = keyf or key_of
+  k = keyf(test)
   if k is not None:
     return {k: truth}
   if isinstance(test, ast.UnaryOp) and isinstance(test.op, ast.Not):
-    return cond_facts(test.operand, not truth)
+    return cond_facts(test.operand, not truth, keyf)
   if isinstance(test, ast.BoolOp):
     if (isinstance(test.op, ast.And) and truth) or (isinstance(test.op, ast.Or) and not truth):
       out = {}
       for v in test.values:
-        out.update(cond_facts(v, truth))
+        out.update(cond_facts(v, truth, keyf))
       return out
   return {}
 
@@ -89,11 +91,19 @@ class FactReach(object):
   Path-sensitive reachability over (cfg node, facts). `tracked` is the set of fact keys followed;
   a fact is dropped where its name is rebound (to a constant: replaced by the constant's truth),
   and attribute facts listed in `call_kills` are dropped at every node that evaluates a call.
+  `call_keys`: texts of pure predicate calls (`col.is_formula()`) that may serve as fact keys; such
+  a fact is dropped where the receiver variable is rebound.
   """
-  def __init__(self, cfg, tracked, call_kills=()):
+  def __init__(self, cfg, tracked, call_kills=(), call_keys=()):
     self.cfg = cfg
-    self.tracked = set(tracked)
+    self.tracked = set(tracked) | set(call_keys)
     self.call_kills = set(call_kills)
+    self.call_keys = set(call_keys)
+
+  def keyf(self, e):
+    if isinstance(e, ast.Call) and self.call_keys and text(e) in self.call_keys:
+      return text(e)
+    return key_of(e)
 
   def _transfer(self, n, facts):
     s = n.stmt
@@ -115,6 +125,9 @@ class FactReach(object):
         f.pop(k, None)
         if isinstance(s, ast.Assign) and isinstance(s.value, ast.Constant):
           f[k] = bool(s.value.value)
+      for k in self.call_keys:
+        if k.split(".")[0].split("(")[0] in bound:
+          f.pop(k, None)
     if self.call_kills and any(True for _ in calls_in(n.exprs)):
       for k in self.call_kills:
         f.pop(k, None)
@@ -142,15 +155,17 @@ class FactReach(object):
       f = self._transfer(n, dict(ff))
       if n.kind in ("if", "while") and not isinstance(n.stmt.test, ast.Constant):
         t, fl = branch_succ(cfg, nid)
-        v = cond_value(n.stmt.test, f)
+        v = cond_value(n.stmt.test, f, self.keyf)
         nxt = []
         if v is not False:
           g = dict(f)
-          g.update({k: b for k, b in cond_facts(n.stmt.test, True).items() if k in self.tracked})
+          g.update({k: b for k, b in cond_facts(n.stmt.test, True, self.keyf).items()
+                    if k in self.tracked})
           nxt += [(m, g) for m in t]
         if v is not True:
           g = dict(f)
-          g.update({k: b for k, b in cond_facts(n.stmt.test, False).items() if k in self.tracked})
+          g.update({k: b for k, b in cond_facts(n.stmt.test, False, self.keyf).items()
+                    if k in self.tracked})
           nxt += [(m, g) for m in fl]
         for m in cfg.succ[nid] - t - fl:        # exceptional edges of the test itself
           nxt.append((m, f))
